@@ -4,7 +4,7 @@ call site hands to path_is_secure(), the (requested mode, umask in force) recipe
 (socket, lock, pid, log, seed) in foreground and in daemon mode, how each of them is created (is the name
 unlinked first, O_EXCL, O_NOFOLLOW), and — observed by starting munged with real uid != effective uid and the
 file or directory in question owned by either — which of the two each ownership test compares with."""
-import os, re, shutil, signal, subprocess, tempfile, threading, time
+import os, re, shutil, signal, stat, subprocess, tempfile, threading, time
 
 PROBE_UMASKS = (0o000, 0o777, 0o525)     # two determine the bitwise-affine recipe, the third checks it
 FILES = ("sock", "lock", "pid", "log", "seed")
@@ -75,8 +75,14 @@ def _merged_lines(trace_file):
         yield pid + "  " + rest
 
 
-def _trace_one(exe, top, tag, fg, umask, res):
-    """one traced start/stop in its own tree; res[tag] = dict(created=..., pis=..., err=...)"""
+REUSE_UID = 4242        # the non-root daemon of the reuse probes
+
+
+def _trace_one(exe, top, tag, fg, umask, res, reuse=None):
+    """one traced start/stop in its own tree; res[tag] = dict(created=..., pis=..., err=...).
+    reuse = (launcher, owner): the daemon runs as uid REUSE_UID, its seed and pid file live in root-owned 0755
+    directories (secure, but not writable by the daemon) and exist already, owned by `owner`: unlink fails, open
+    reuses them; res[tag]["reuse"] = {file: dict(fchmod=(mode, ok) | None, size=bytes afterwards)}"""
     T = os.path.join(top, tag)
     os.mkdir(T, 0o755)
     os.chmod(T, 0o755)
@@ -89,10 +95,22 @@ def _trace_one(exe, top, tag, fg, umask, res):
     with open(paths["key"], "wb") as f:
         f.write(os.urandom(32))
     os.chmod(paths["key"], 0o600)
+    pre = []
+    if reuse:
+        launcher, owner = reuse
+        for d in ("kd", "ld", "rd"):
+            os.chown(os.path.join(T, d), REUSE_UID, 0)
+        os.chown(paths["key"], REUSE_UID, 0)
+        for f, data, mode in (("seed", os.urandom(1024), 0o644 if owner == REUSE_UID else 0o666), ("pid", b"", 0o666)):
+            with open(paths[f], "wb") as fh:
+                fh.write(data)
+            os.chown(paths[f], owner, 0)
+            os.chmod(paths[f], mode)
+        pre = [launcher, str(REUSE_UID), str(REUSE_UID), str(REUSE_UID), str(REUSE_UID), "%o" % umask]
     pis = os.path.join(T, "pis.log")
     tr = os.path.join(T, "trace")
-    argv = ["strace", "-f", "-o", tr, "-e", "trace=umask,open,openat,creat,bind,chmod,fchmod,fchmodat,unlink,unlinkat",
-            exe] + (["-F"] if fg else []) + ["-S", paths["sock"], "--key-file=" + paths["key"],
+    argv = ["strace", "-f", "-o", tr, "-e", "trace=umask,open,openat,creat,bind,chmod,fchmod,fchmodat,unlink,unlinkat"] \
+        + pre + [exe] + (["-F"] if fg else []) + ["-S", paths["sock"], "--key-file=" + paths["key"],
             "--pid-file=" + paths["pid"], "--seed-file=" + paths["seed"], "--log-file=" + paths["log"],
             "--group-update-time=-1", "--origin=127.0.0.1"]
     env = dict(os.environ, VERIF_PIS_LOG=pis)
@@ -102,11 +120,24 @@ def _trace_one(exe, top, tag, fg, umask, res):
                          preexec_fn=lambda: os.umask(umask))
     try:
         t0 = time.time()
+        sock_seen = None
         while time.time() - t0 < 15 and not (os.path.exists(paths["pid"]) and os.path.getsize(paths["pid"]) > 0):
             if p.poll() is not None:
                 break
+            if reuse:       # a reused pid file of another owner may be left alone: the socket tells that munged is up
+                try:
+                    if stat.S_ISSOCK(os.lstat(paths["sock"]).st_mode):
+                        sock_seen = sock_seen or time.time()
+                except OSError:
+                    pass
+                if sock_seen and time.time() - sock_seen > 0.5:
+                    break
             time.sleep(0.01)
-        observed = {}
+        observed, sizes = {}, {}
+        try:
+            sizes["pid"] = os.lstat(paths["pid"]).st_size
+        except OSError:
+            pass
         for f in ("sock", "lock", "pid", "log"):
             try:
                 observed[f] = os.lstat(paths[f]).st_mode & 0o7777
@@ -116,6 +147,15 @@ def _trace_one(exe, top, tag, fg, umask, res):
             dpid = int(open(paths["pid"]).read().strip())
         except Exception:
             dpid = None
+            if reuse and sock_seen:
+                for q in os.listdir("/proc"):
+                    try:
+                        cl = open("/proc/%s/cmdline" % q, "rb").read() if q.isdigit() else b""
+                    except OSError:
+                        continue
+                    if cl.startswith(exe.encode() + b"\0") and T.encode() in cl:
+                        dpid = int(q)
+        if dpid is None:
             out["err"] = "munged did not come up (%s, umask %03o): %s" % (
                 "foreground" if fg else "daemon", umask, (p.stderr.read() or b"").decode(errors="replace")[-400:] if p.poll() is not None else "no pid file")
         # SIGTERM is repeated: one that lands between job_accept's flag test and accept() is lost
@@ -134,6 +174,7 @@ def _trace_one(exe, top, tag, fg, umask, res):
             out["err"] = out["err"] or "munged did not stop"
         try:
             observed["seed"] = os.lstat(paths["seed"]).st_mode & 0o7777
+            sizes["seed"] = os.lstat(paths["seed"]).st_size
         except OSError:
             pass
     finally:
@@ -147,11 +188,14 @@ def _trace_one(exe, top, tag, fg, umask, res):
     fd_path = {}
     created = {}
     last_op = {}          # path -> "unlink" when the last call that named it was unlink(2)/unlinkat(2)
+    stuck = {}            # path -> True when that unlink failed with an errno other than ENOENT
+    reused = {}           # file -> dict(fd=..., fchmod=(mode, ok) | None): created by an open that found the old file
     rev = {v: k for k, v in paths.items()}
     for line in _merged_lines(tr):
         m = re.search(r'\b(?:unlink\(|unlinkat\(AT_FDCWD, )"([^"]*)"', line)
         if m:
             last_op[m.group(1)] = "unlink"
+            stuck[m.group(1)] = bool(re.search(r"=\s*-1\s+(?!ENOENT)[A-Z]+", line))
             continue
         m = re.search(r"\bumask\((0[0-7]*|0)\)", line)
         if m:
@@ -167,6 +211,8 @@ def _trace_one(exe, top, tag, fg, umask, res):
             if path in rev and ("O_CREAT" in flags or "creat(" in line) and fd >= 0 and mode is not None:
                 created[rev[path]] = {"req": int(mode, 8), "mask": in_force, "chmod": None,
                                       "how": (last_op.get(path) == "unlink", "O_EXCL" in flags, "O_NOFOLLOW" in flags)}
+                if last_op.get(path) == "unlink" and stuck.get(path):
+                    reused[rev[path]] = {"fd": fd, "fchmod": None}
             last_op[path] = "open"
             continue
         m = re.search(r'\bbind\((\d+), \{sa_family=AF_UNIX, sun_path="([^"]*)"\}, \d+\)\s*=\s*0', line)
@@ -181,11 +227,17 @@ def _trace_one(exe, top, tag, fg, umask, res):
         if m and m.group(1) in rev and rev[m.group(1)] in created and re.search(r"=\s*0\s*$", line):
             created[rev[m.group(1)]]["chmod"] = int(m.group(2), 8)
             continue
+        m = re.search(r"\bfchmod\((\d+), (0[0-7]*)\)\s*=\s*(-?\d+)", line)
+        if m and fd_path.get(int(m.group(1))) in rev and rev[fd_path[int(m.group(1))]] in reused \
+                and reused[rev[fd_path[int(m.group(1))]]]["fd"] == int(m.group(1)):
+            reused[rev[fd_path[int(m.group(1))]]]["fchmod"] = (int(m.group(2), 8), m.group(3) == "0")
+            continue
         m = re.search(r"\bfchmod\((\d+), (0[0-7]*)\)\s*=\s*0", line)
         if m and fd_path.get(int(m.group(1))) in rev and rev[fd_path[int(m.group(1))]] in created:
             created[rev[fd_path[int(m.group(1))]]]["chmod"] = int(m.group(2), 8)
     out["created"] = created
     out["observed"] = observed
+    out["reuse"] = {f: {"fchmod": r["fchmod"], "size": sizes.get(f)} for f, r in reused.items()}
     sites = {}
     dirs = {os.path.join(T, d): s for d, s in (("kd", "key"), ("sd", "seed"), ("ld", "log"), ("rd", "sock"), ("pd", "pid"))}
     if os.path.exists(pis):
@@ -447,11 +499,22 @@ def observe(repo, incs, defs, probes_dir):
                 t = threading.Thread(target=_trace_one, args=(exe, top, tag, fg, u, res))
                 t.start()
                 th.append(t)
+        # an old seed / pid file the daemon cannot unlink (it is not root and may not write to their directory)
+        rres, rth = {}, []
+        for (fg, u, owner) in [(True, uu, REUSE_UID) for uu in PROBE_UMASKS] + [(False, PROBE_UMASKS[0], REUSE_UID),
+                                (False, PROBE_UMASKS[1], REUSE_UID), (True, PROBE_UMASKS[0], 0)]:
+            tag = "reuse_%s%03o_%d" % ("fg" if fg else "bg", u, owner)
+            t = threading.Thread(target=_trace_one, args=(exe, top, tag, fg, u, rres, (launcher, owner)))
+            t.start()
+            rth.append(t)
         for t in th:
             t.join()
         idt.join()
-        for t in wth:
+        for t in wth + rth:
             t.join()
+        for tag, r in sorted(rres.items()):
+            if r["err"]:
+                raise RuntimeError("%s: %s" % (tag, r["err"]))
         if "err" in ids_box:
             raise RuntimeError(str(ids_box["err"]))
         for tag, r in sorted(res.items()):
@@ -486,6 +549,34 @@ def observe(repo, incs, defs, probes_dir):
             # the key always exists when its directory is looked at (a missing key is fatal before)
             walk[s] = (occupied if s == "key" else True, occupied)
         flags["walk"] = walk
+        # what happens to the reused file: fchmod (base & ~(inherited & keep)); failing fchmod abandons the file?
+        rechmod = {}
+        for md in ("fg", "bg"):
+            for f in ("pid", "seed"):
+                runs = {u: rres["reuse_%s%03o_%d" % (md, u, REUSE_UID)]["reuse"].get(f)
+                        for u in (PROBE_UMASKS if md == "fg" else PROBE_UMASKS[:2])}
+                if any(v is None for v in runs.values()):
+                    raise RuntimeError("%s file (%s): the old file in a directory the daemon may not write to was not "
+                                       "reused (no failing unlink followed by a creating open seen)" % (f, md))
+                ch = {u: v["fchmod"] for u, v in runs.items()}
+                if all(c is None for c in ch.values()):
+                    rechmod[(md, f)] = None
+                    continue
+                if any(c is None or not c[1] for c in ch.values()):
+                    raise RuntimeError("%s file (%s): fchmod of the reused file is not done on every start, or fails "
+                                       "on the daemon's own file: %s" % (f, md, ch))
+                base = ch[PROBE_UMASKS[0]][0]
+                keep = base & ~ch[PROBE_UMASKS[1]][0] & 0o7777
+                for u, c in ch.items():
+                    if c[0] != base & ~(u & keep):
+                        raise RuntimeError("%s file (%s): mode given to the reused file is not base & ~(umask & keep): "
+                                           "%s" % (f, md, ch))
+                foreign = rres["reuse_fg%03o_0" % PROBE_UMASKS[0]]["reuse"].get(f)
+                if foreign is None or foreign["fchmod"] is None or foreign["fchmod"][1]:
+                    raise RuntimeError("%s file: expected a failing fchmod on a reused file of another owner, saw %s"
+                                       % (f, foreign))
+                rechmod[(md, f)] = (base, keep, not foreign["size"])      # nothing written = given up
+        flags["rechmod"] = rechmod
         so = set()
         for r in res.values():
             so |= r.get("seed_open", set())
@@ -557,6 +648,15 @@ def gen(api):
             how = recipes[(md, f)][4]
             out.append("Definition %s_%s_how : bool * bool * bool := (%s, %s, %s)."
                        % ((md, f) + tuple("true" if x else "false" for x in how)))
+    out.append("(* what the source does to an old file it could not unlink (a daemon that is not root, a directory it may not")
+    out.append("   write to) and that open() therefore REUSED, mode and all: Some (base, keep, gives_up) = fchmod (fd, base land")
+    out.append("   lnot (inherited land keep)) and, when that fails (file of another owner), gives_up = nothing is written;")
+    out.append("   None = no fchmod: the old mode stays.  Observed with strace on starts of a uid-%d daemon. *)" % REUSE_UID)
+    for md in ("fg", "bg"):
+        for f in ("pid", "seed"):
+            rc = flags["rechmod"][(md, f)]
+            out.append("Definition %s_%s_rechmod : option (N * N * bool) := %s." % (
+                md, f, "None" if rc is None else "Some (%d, %d, %s)" % (rc[0], rc[1], "true" if rc[2] else "false")))
     out.append("(* which of the process's user ids each ownership test compares with, observed by starting munged with")
     out.append("   real uid <> effective uid and the file (directory) in question owned by either *)")
     out.append("Definition id_real : N := 0.")
